@@ -151,7 +151,7 @@ PROPS = {
                        "Shape variants have a path that does not return TypeErr), by per-variant path analysis; required: VM set "
                        "(mapped kind -> shape) is a subset of the checker set. R21a: map/filter/reduce targets; R21b: the forms the "
                        "translator lowers after `.` on a tuple / resolved import; R21c: copy bases and `not`. Not decided: "
-                       "completeness of the checker in general (value-level rules of narrow, e.g. `[1] + [\"a\"]`). Added later: R21b for partly known left shapes, R21h (F33 known), R21p (with_pos preserves variant and kind of knowledge), R25p (visit/leave pairing). Third session: R21a/R21c also require partly known shapes (Hole, Narrowed[Any], Narrowed[candidates]) to pass every dispatch (F45 fixed); R21s parameters are layered over the enclosing scope in FuncDef::derive_shape (F42 fixed); R21d every result-carrying sub-expression (select branches and default, func body, module out) flows into the derived shape (F44 fixed); R21n a callee's open parameter shapes are not narrowed in the caller's table (F43 known). R21q: with one candidate's comparison forced to a fitting shape and the others unknown, narrow_cached builds no TypeErr (evaluated; one fitting candidate is enough).",
+                       "completeness of the checker in general (value-level rules of narrow, e.g. `[1] + [\"a\"]`). Added later: R21b for partly known left shapes, R21h (F33 known), R21p (with_pos preserves variant and kind of knowledge), R25p (visit/leave pairing). Third session: R21a/R21c also require partly known shapes (Hole, Narrowed[Any], Narrowed[candidates]) to pass every dispatch (F45 fixed); R21s parameters are layered over the enclosing scope in FuncDef::derive_shape (F42 fixed); R21d every result-carrying sub-expression (select branches and default, func body, module out) flows into the derived shape (F44 fixed); R21n a callee's open parameter shapes are not narrowed in the caller's table (F43 known). R21q: with one candidate's comparison forced to a fitting shape and the others unknown, narrow_cached builds no TypeErr (evaluated; one fitting candidate is enough). R21m: merge_in_shape drops an incoming select candidate only when Shape::equivalent (one-directional on tuples) holds both ways (F46).",
         "assumptions": ["runtime kind -> Shape variant map of impl DeriveShape for Value (List->List, Tuple->Tuple, Str->Str)"],
     },
     "C17": {
